@@ -16,7 +16,6 @@ use futures::{stream::FuturesUnordered, StreamExt};
 #[cfg(test)]
 use mockall::automock;
 use secp256k1::hashes::sha256;
-use tokio::join;
 use tracing::{debug, instrument, warn};
 
 use crate::rpc::{ClnRpc, RpcError};
@@ -149,15 +148,11 @@ where
     /// `wait_payment` waits until a payment is fully resolved and no htlcs for
     /// the given payment hash are outgoing anymore.
     async fn wait_payment(&self, payment_hash: sha256::Hash) -> Result<Option<Vec<u8>>> {
-        let completed_req = ListsendpaysRequest {
-            payment_hash: Some(payment_hash),
-            bolt11: None,
-            index: None,
-            limit: None,
-            start: None,
-            status: Some(ListsendpaysStatus::COMPLETE),
-        };
-        let completed_payments_fut = self.rpc.listsendpays(&completed_req);
+        // Query the pending parts first, and only then the completed ones. A
+        // part only ever moves from pending to complete or failed, so a part
+        // that completes in between the two queries shows up in at least one
+        // of them. Querying them in the other order (or concurrently) can miss
+        // a part that completes in between, making a paid invoice look unpaid.
         let pending_req = ListsendpaysRequest {
             payment_hash: Some(payment_hash),
             bolt11: None,
@@ -166,10 +161,16 @@ where
             start: None,
             status: Some(ListsendpaysStatus::PENDING),
         };
-        let pending_payments_fut = self.rpc.listsendpays(&pending_req);
-        let (completed_payments, pending_payments) =
-            join!(completed_payments_fut, pending_payments_fut);
-        let (completed_payments, pending_payments) = (completed_payments?, pending_payments?);
+        let pending_payments = self.rpc.listsendpays(&pending_req).await?;
+        let completed_req = ListsendpaysRequest {
+            payment_hash: Some(payment_hash),
+            bolt11: None,
+            index: None,
+            limit: None,
+            start: None,
+            status: Some(ListsendpaysStatus::COMPLETE),
+        };
+        let completed_payments = self.rpc.listsendpays(&completed_req).await?;
 
         if let Some(preimage) = completed_payments
             .payments
